@@ -49,6 +49,7 @@ func rulesC03(c *Ctx) {
 	c03Constructors(c)
 	c03Stats(c)
 	c03Metrics(c)
+	c03MetricsViews(c)
 	c03Clock(c)
 	c04RecordInternals(c)
 	c04HalfOpenPermits(c)
@@ -1448,6 +1449,69 @@ func c03Clock(c *Ctx) {
 	c.Floor("static calls scanned in circuitbreaker", n, 40)
 	if ok {
 		c.Ok("circuitbreaker#clock", "", fmt.Sprintf("%d static calls: none to time.Now/Since/Until (time is read through config.clock only)", n))
+	}
+}
+
+// c03MetricsViews: the breaker answers Metrics queries under its mutex. Any other implementer of the Metrics interface
+// reads the state's statistics directly (no lock): such a view may only be built by the transition function, which
+// hands it to listeners while the mutex is held; and Metrics() itself must hand out the locking breaker.
+func c03MetricsViews(c *Ctx) {
+	c.Rule("metrics-views")
+	iface := c.P.NamedType("circuitbreaker", "Metrics")
+	breaker := c.P.NamedType("circuitbreaker", "circuitBreaker")
+	if iface == nil || breaker == nil {
+		c.Unresolved("circuitbreaker.Metrics", "interface or breaker type not found")
+		return
+	}
+	ix := BuildIndex(c.P)
+	views := map[*types.TypeName]bool{}
+	for _, n := range c.P.Implementers(iface) {
+		if n.Obj() == breaker.Obj() || n.Obj().Pkg() != breaker.Obj().Pkg() {
+			continue
+		}
+		// its own methods, not the breaker's promoted through embedding
+		ms := types.NewMethodSet(types.NewPointer(n))
+		for i := 0; i < ms.Len(); i++ {
+			if ms.At(i).Obj().Name() == "Executions" && len(ms.At(i).Index()) == 1 {
+				views[n.Obj()] = true
+			}
+		}
+	}
+	ok := true
+	sites := 0
+	for _, fn := range c.P.Funcs {
+		for _, b := range fn.Blocks {
+			for _, in := range b.Instrs {
+				al, isAlloc := in.(*ssa.Alloc)
+				if !isAlloc {
+					continue
+				}
+				n := namedOfPtr(al.Type())
+				if n == nil || !views[n.Origin().Obj()] {
+					continue
+				}
+				sites++
+				if !ix.WithinNames(fn, "circuitbreaker.(*circuitBreaker).transitionTo") {
+					ok = false
+					c.Fail(c.fn(fn)+"#"+n.Obj().Name(), c.P.Pos(al.Pos()), fmt.Sprintf("an unlocked view of the breaker's statistics (%s) is built outside the transition function: whoever gets it reads the state without the breaker's mutex", n.Obj().Name()), "")
+				}
+			}
+		}
+	}
+	if fn := c.P.Func("circuitbreaker.(*circuitBreaker).Metrics"); fn == nil {
+		c.Unresolved("circuitbreaker.(*circuitBreaker).Metrics", "not found")
+	} else {
+		ev := NewEvaluator(c.P, EvalConfig{})
+		recv := ev.Param(fn, fn.Params[0].Name())
+		for _, p := range ev.Run(fn) {
+			if p.Exit != ExitReturn || len(p.Rets) != 1 || p.Rets[0] != recv || len(impure(p)) != 0 {
+				ok = false
+				c.Fail(c.fn(fn), c.P.FuncPos(fn), "Metrics() must hand out the breaker itself, whose accessors take the mutex", pathTrace(ev, p))
+			}
+		}
+	}
+	if ok {
+		c.Ok("circuitbreaker#metrics-views", "", fmt.Sprintf("%d unlocked view type(s), %d construction site(s), all inside transitionTo; Metrics() returns the breaker", len(views), sites))
 	}
 }
 
